@@ -197,6 +197,35 @@ def r2_two_maps(repo):
     obs.append(Ob("C16-R2", "only-_add_entity-writes-the-reverse-map", _where(repo, cls.methods["_add_entity"]), not badw,
                   "stores into self._namespaces outside _add_entity / __init__: %s" % badw))
 
+    # any further state of the table (a cache, an index) is a second copy of the truth: every method that changes the
+    # entity table must touch it as well, or lookups answer from stale data after an add / remove
+    def touches(m, attr):
+        pre = "self." + attr
+        for n in iter_own_nodes(m.node):
+            if isinstance(n, (ast.Assign, ast.AugAssign)):
+                for t in (n.targets if isinstance(n, ast.Assign) else [n.target]):
+                    if src(t).startswith(pre):
+                        return True
+            if isinstance(n, ast.Delete) and any(src(t).startswith(pre) for t in n.targets):
+                return True
+            if isinstance(n, ast.Call) and isinstance(n.func, ast.Attribute) and src(n.func.value).startswith(pre) and \
+                    n.func.attr in ("pop", "popitem", "clear", "remove", "discard", "update", "setdefault", "add",
+                                    "append", "extend", "insert"):
+                return True
+        return False
+    state = sorted({t.attr for m in cls.methods.values() for n in iter_own_nodes(m.node)
+                    if isinstance(n, (ast.Assign, ast.AugAssign, ast.AnnAssign))
+                    for t in (n.targets if isinstance(n, ast.Assign) else [n.target])
+                    for t in [t.value if isinstance(t, ast.Subscript) else t]
+                    if isinstance(t, ast.Attribute) and src(t.value) == "self"})
+    table_mutators = sorted(nm for nm, m in cls.methods.items() if nm != "__init__" and touches(m, "_context"))
+    extra = [a for a in state if a not in ("_context", "_namespaces")]
+    stale = [(a, nm) for a in extra for nm in table_mutators if not touches(cls.methods[nm], a)]
+    obs.append(Ob("C16-R2", "derived-state-updated-by-every-table-mutator", _where(repo, cls.methods["_add_entity"]),
+                  not stale and {"_add_entity", "_remove_entity"} <= set(table_mutators),
+                  "state attributes of Context: %s; methods that change the entity table: %s; a derived attribute that a "
+                  "table mutator does not touch goes stale: %s" % (state, table_mutators, stale)))
+
     f = repo.method(CTX, "_remove_entity", inherited=False)
     p = f.params
     if len(p) != 4:
